@@ -120,7 +120,11 @@ where
                     (partial_len + pushed_len) as u32,
                 ),
             )?;
+            #[cfg(feature = "verif")]
+            rawdb::verif_sync::yield_point("compressed-write-fast:before-publish-len");
             self.base.update_stored_len(stored_len + pushed_len);
+            #[cfg(feature = "verif")]
+            rawdb::verif_sync::yield_point("compressed-write-fast:after-publish-len");
             pages.flush()?;
             return Ok(true);
         }
@@ -176,7 +180,11 @@ where
             pages.checked_push(starting_page_index + i, page)?;
         }
 
+        #[cfg(feature = "verif")]
+        rawdb::verif_sync::yield_point("compressed-write:before-publish-len");
         self.base.update_stored_len(stored_len + pushed_len);
+        #[cfg(feature = "verif")]
+        rawdb::verif_sync::yield_point("compressed-write:after-publish-len");
         pages.flush()?;
 
         Ok(true)
